@@ -528,6 +528,145 @@ func depthLadderBody(c *explore.Ctx, typed bool) {
 	c.Case(map[string]any{"protocol": p.String(), "shape": name, "depth": depth, "input_bytes": len(in)})
 }
 
+// ---- containers whose item types the target does not expect: skipped as a whole (non-strict), TypeMismatch (strict)
+
+type mismT struct {
+	A  string              `thrift:"1"`
+	L  []string            `thrift:"2"`
+	M  map[string]string   `thrift:"3"`
+	E  map[string]struct{} `thrift:"4"`
+	B  int32               `thrift:"5"`
+	LL [][]string          `thrift:"6"`
+}
+
+func containerMismatch(c *explore.Ctx) {
+	p := protos[c.Choose(3)]
+	which := c.Choose(5) // list, map (key), map (value), set, nested list
+	n := []int{1, 3, 16, 1025}[c.Choose(4)]
+	itemKind := c.Choose(3) // items sent: i32, double, struct
+	item := func() spec.Val {
+		switch itemKind {
+		case 0:
+			return spec.Val{T: spec.I32, I: 7}
+		case 1:
+			return spec.Val{T: spec.Double, F: 1.5}
+		}
+		return spec.Val{T: spec.Struct, Fields: []spec.Field{{ID: 1, V: spec.Val{T: spec.I64, I: 9}}}}
+	}
+	var bad spec.Field
+	name := ""
+	switch which {
+	case 0:
+		v := spec.Val{T: spec.List, Elem: item().T}
+		for i := 0; i < n; i++ {
+			v.Items = append(v.Items, item())
+		}
+		bad, name = spec.Field{ID: 2, V: v}, "list"
+	case 1:
+		v := spec.Val{T: spec.Map, Key: spec.I32, Value: spec.Binary}
+		for i := 0; i < n; i++ {
+			v.Pairs = append(v.Pairs, [2]spec.Val{{T: spec.I32, I: int64(i)}, {T: spec.Binary, S: []byte("v")}})
+		}
+		bad, name = spec.Field{ID: 3, V: v}, "map with another key type"
+	case 2:
+		v := spec.Val{T: spec.Map, Key: spec.Binary, Value: item().T}
+		for i := 0; i < n; i++ {
+			v.Pairs = append(v.Pairs, [2]spec.Val{{T: spec.Binary, S: []byte(fmt.Sprint("k", i))}, item()})
+		}
+		bad, name = spec.Field{ID: 3, V: v}, "map with another value type"
+	case 3:
+		v := spec.Val{T: spec.Set, Elem: spec.I32}
+		for i := 0; i < n; i++ {
+			v.Items = append(v.Items, spec.Val{T: spec.I32, I: int64(i)})
+		}
+		bad, name = spec.Field{ID: 4, V: v}, "set"
+	case 4:
+		inner := spec.Val{T: spec.List, Elem: spec.I64, Items: []spec.Val{{T: spec.I64, I: 1}, {T: spec.I64, I: 2}}}
+		v := spec.Val{T: spec.List, Elem: spec.List}
+		for i := 0; i < n; i++ {
+			v.Items = append(v.Items, inner)
+		}
+		bad, name = spec.Field{ID: 6, V: v}, "list of lists with another item type"
+	}
+	ast := spec.Val{T: spec.Struct, Fields: []spec.Field{{ID: 1, V: spec.Val{T: spec.Binary, S: []byte("x")}}, bad, {ID: 5, V: spec.Val{T: spec.I32, I: 7}}}}
+	in := spec.Encode(p, nil, ast, spec.Options{})
+	desc := fmt.Sprintf("%s of %d items (item kind %d) between two good fields over %s", name, n, itemKind, p)
+	got, err, ok := decode(c, p, reflect.TypeOf(mismT{}), in, false, "container-mismatch")
+	if ok {
+		if p == spec.BinaryStrict {
+			// the strict protocol variant only changes message headers; the strict decoding flag is exercised below
+		}
+		if err != nil {
+			c.Fail("container-mismatch:rejected:"+proto3(p)+":"+name, "non-strict Unmarshal fails: %v for %s (% x)", err, desc, trunc(in))
+		} else if m := got.Elem().Interface().(mismT); m.A != "x" || m.B != 7 {
+			c.Fail("container-mismatch:other-fields-changed:"+proto3(p)+":"+name, "non-strict Unmarshal decodes A=%q B=%d (want \"x\", 7): the items of the mismatching container were not consumed, for %s", m.A, m.B, desc)
+		} else if len(m.L) != 0 || len(m.M) != 0 || len(m.E) != 0 || !allEmpty(m.LL) {
+			c.Fail("container-mismatch:filled:"+name, "the mismatching container was decoded into the target: %+v for %s", m, desc)
+		}
+	}
+	// strict decoding reports the mismatch
+	var serr error
+	var out mismT
+	if pv, ps := explore.Catch(func() {
+		d := thrift.NewDecoder(impl(p).NewReader(bytes.NewReader(in)))
+		d.SetStrict(true)
+		serr = d.Decode(&out)
+	}); pv != nil {
+		c.Fail("container-mismatch:strict:panic:"+ps, "strict Decode panics: %v for %s", pv, desc)
+	} else {
+		var tm *thrift.TypeMismatch
+		if !errors.As(serr, &tm) {
+			c.Fail("container-mismatch:strict:not-reported:"+name, "strict Decode returns %v, want a TypeMismatch, for %s", serr, desc)
+		}
+	}
+	c.NontrivialStr("mism", p.String(), name, fmt.Sprint(n, itemKind))
+	c.Outcome(fmt.Sprintf("%s %s", proto3(p), name))
+	if c.WantSample() || c.Failed() {
+		c.Case(map[string]any{"protocol": p.String(), "container": name, "items": n, "item_kind": itemKind, "input_bytes": len(in)})
+	}
+}
+
+func allEmpty(ll [][]string) bool {
+	for _, l := range ll {
+		if len(l) != 0 {
+			return false
+		}
+	}
+	return true
+}
+
+// many maps with mismatching types inside a list: nothing may be allocated per announced entry
+func mismatchAlloc(c *explore.Ctx) {
+	p := protos[c.Choose(3)]
+	count := []int{10, 1000, 60000}[c.Choose(3)]
+	bin := p != spec.Compact
+	var in []byte
+	// field 1: list<map>, each map header announces 1024 i32/i32 entries and carries none
+	if bin {
+		in = append(in, 15, 0, 1, 13)
+		in = append(in, be32(int64(count))...)
+		for i := 0; i < count; i++ {
+			in = append(in, 8, 8, 0, 0, 4, 0)
+		}
+	} else {
+		in = append(in, 0x19, 0xfb)
+		in = append(in, uvar(uint64(count))...)
+		for i := 0; i < count; i++ {
+			in = append(in, 0x80, 0x08, 0x55)
+		}
+	}
+	type T struct {
+		L []map[string]string `thrift:"1"`
+	}
+	_, err, _ := decode(c, p, reflect.TypeOf(T{}), in, false, "mismatch-alloc")
+	if err == nil {
+		c.Fail("mismatch-alloc:accepted:"+proto3(p), "Unmarshal accepts %d map headers announcing 1024 entries each with no entry present", count)
+	}
+	c.NontrivialStr("mismalloc", p.String(), fmt.Sprint(count))
+	c.Outcome(proto3(p))
+	c.Case(map[string]any{"protocol": p.String(), "maps": count, "input_bytes": len(in)})
+}
+
 // ---- unions: a skipped field must not disturb the member decoded so far
 
 type unionT struct {
@@ -884,6 +1023,8 @@ func Spec() *explore.Spec {
 				}
 				return "typed-decode"
 			}, Doc: "the same ladder for declared recursive struct / list-of-struct fields, which the decoder follows recursively (rungs above 100,000 in the thorough tier only)"},
+			{Name: "container-mismatch", ShardDepth: 3, Body: containerMismatch, Doc: "a list / map (key or value) / set / list of lists whose item types differ from the declared ones (3 item kinds, 1..1025 items) between two good fields x 3 protocols: non-strict decoding consumes it and leaves the other fields intact, strict decoding reports TypeMismatch"},
+			{Name: "mismatch-alloc", ShardDepth: 2, Body: mismatchAlloc, Doc: "10..60000 map headers with mismatching key/value types, each announcing 1024 entries, inside a list: error, allocation within the bound"},
 			{Name: "union", ShardDepth: 2, Body: unionFamily, Doc: "a struct with a `thrift:\",union\"` field: each member (or none) x an unknown field of every thrift type, or a declared field with another wire type (non-strict), placed before / after / around the member: the member and the union interface keep their values"},
 			{Name: "hostile-sizes", ShardDepth: 2, Body: hostileSizes, Doc: "list/set/map/binary/string sizes replaced by {-1, MinInt32, MaxInt32, 2^20, 2^16, 3, 2^40, 2^28} with 0/2/64/70000 payload bytes present: error, no panic, allocation within 1 MiB + 1024 x len(input)"},
 		},
